@@ -41,7 +41,9 @@ def variants(r, tier):
   for batch in (1, 3, 500):
     for dyn, retries in ((False, 5), (True, 0), (True, 1)):
       for protocol in ('pickle', 'line'):
-        out.append(dict(batch=batch, dyn=dyn, retries=retries, protocol=protocol))
+        # hw: bytes a transport buffers before it pauses its producer from inside write() (None: only harness pauses)
+        for hw in (None, 25):
+          out.append(dict(batch=batch, dyn=dyn, retries=retries, protocol=protocol, hw=hw))
   r.shuffle(out)
   return out
 
@@ -54,6 +56,8 @@ def apply_variant(settings, v, router='constant', rf=1):
   settings['RELAY_METHOD'] = router
   settings['REPLICATION_FACTOR'] = rf
   settings['DIVERSE_REPLICAS'] = False
+  from carbon.conf import settings as _s
+  return v.get('hw')
 
 
 def run_sequence(ns, dests, events, receivers=0):
@@ -88,7 +92,7 @@ def run_config(cfg, res, relay_oracle=None, extra_weights=None):
 
   def finish(s, v, events):
     for k, n in s.counters.items():
-      if k in ('accepted', 'refused', 'reinjected', 'stop_raised'):
+      if k in ('accepted', 'refused', 'reinjected', 'stop_raised', 'pauses_from_inside_write'):
         res.count(k, n)
     res.count('sequences_executed')
     res.count('events_executed', len(s.log))
@@ -102,10 +106,11 @@ def run_config(cfg, res, relay_oracle=None, extra_weights=None):
   # exhaustive part: one destination
   nvar = 2 if cfg['tier'] == 'quick' else 6
   # the exhaustive part always covers the static and the dynamic router
-  chosen = [next(v for v in vs if not v['dyn']), next(v for v in vs if v['dyn'] and v['retries'] == 0)]
+  chosen = [next(v for v in vs if not v['dyn'] and v['hw'] and v['protocol'] == 'line' and v['batch'] > 1),
+            next(v for v in vs if v['dyn'] and v['retries'] == 0)]
   chosen += [v for v in vs if v not in chosen][:max(0, nvar - 2)]
   for v in chosen:
-    apply_variant(ns.settings, v, 'consistent-hashing' if v['dyn'] else 'constant')
+    ns.transport_hw = apply_variant(ns.settings, v, 'consistent-hashing' if v['dyn'] else 'constant')
     for prefix in PREFIXES:
       # iterative deepening DFS by re-execution; prune at the first inapplicable event
       dead = set()
@@ -131,7 +136,7 @@ def run_config(cfg, res, relay_oracle=None, extra_weights=None):
     v = r.choice(vs)
     nd = r.choice([1, 1, 2, 3]) if not extra_weights else r.choice([1, 2, 3, 3])
     router, rf = r.choice([('constant', 1), ('consistent-hashing', 1), ('consistent-hashing', 2)])
-    apply_variant(ns.settings, v, router, rf)
+    ns.transport_hw = apply_variant(ns.settings, v, router, rf)
     n = r.randint(30, 200)
     evs = [(r.choices(names, [weights[x] for x in names])[0], r.randrange(nd)) for _ in range(n)]
     from vlib import relayharness
@@ -149,7 +154,7 @@ def run_config(cfg, res, relay_oracle=None, extra_weights=None):
 def finalize(merged, tier):
   c = merged['counters']
   out = []
-  for k in ('sequences_executed', 'accepted', 'refused', 'reinjected', 'invariant_evaluations'):
+  for k in ('sequences_executed', 'accepted', 'refused', 'reinjected', 'invariant_evaluations', 'pauses_from_inside_write'):
     if not c.get(k):
       out.append('monitor counter %s is zero' % k)
   return out
